@@ -132,4 +132,19 @@ def job_oracle(p: Dict[str, Any]) -> Dict[str, Any]:
 
 
 def replay(rep: Dict[str, Any]) -> Dict[str, Any]:
-    return {"violation": False, "note": "re-run ./check C10; the case is identified by its key", "key": rep.get("key")}
+    """Re-run one (unit, transformation) pair in a fresh exporter and a fresh oracle process."""
+    d = scratch_dir("c10r")
+    try:
+        with Pool(1, init=("mc.runners", "warm_export")) as pool:
+            e = pool.map("mc.runners", "export_job", [{"pid": rep["pid"], "out_dir": d, "transform": rep["transform"]}])[0]
+        job = {"pid": rep["pid"], "path": e.get("path", ""), "tier": "c10", "transform": rep["transform"]}
+        if e.get("status") == "raise":
+            job["export_error"] = [e["type"], e["msg"][:200]]
+        with Pool(1, init=("mc.runners", "warm_oracle")) as pool:
+            r = pool.map("checks.c10", "job_oracle", [job])[0]
+        if job.get("export_error"):
+            bad = bool(r.get("jax_accepts")) and not _explicit_unsupported(*job["export_error"])
+            return {"violation": bad, "observed": {"export_error": job["export_error"], "oracle": r}}
+        return {"violation": bool(r.get("mismatch")), "observed": (r.get("mismatch") or [])[:3]}
+    finally:
+        shutil.rmtree(d, ignore_errors=True)
